@@ -26,7 +26,9 @@ STRINGS = ["", " ", "yes", "no", "null", "~", "1e3", "0x10", "1_000", "a: b", "-
            "!!python/object:os.system", "? k", "|", ">", "@", "`",
            # line-break-like and invisible code points, controls, astral plane
            "a\x85b", "a\u2028b", "a\u2029b", "\ufeffa", "a\xa0b", "a\rb", "a\r\nb", "\x7f", "\x1b[0m", "\U0001f600", "a\x0bb", "a\x0cb", "\x85"]
-FILTERS = ["a b", "a_b", "a/b", "a.b", "A B", "ab", "a  b", "a__b", "x", "x ", " x", "r", "g"]
+FILTERS = ["a b", "a_b", "a/b", "a.b", "A B", "ab", "a  b", "a__b", "x", "x ", " x", "r", "g",
+           # names that share what precedes a '.', and names with '+', '&', '=' (they end up in zip member names and URI fragments)
+           "g.v1", "g.v2", "g+r", "g r", "a&b", "a&c", "k=1"]
 
 
 def gen_scalar(rng):
@@ -105,6 +107,7 @@ def run(ctx):
         req, impl = [], []
         for cfgname in ("file", "inmem", "chained", "chained2"):
             histories(ctx, tmp, cfgname, req, impl)
+        bulk_ingest(ctx, tmp)
         if built:
             got = core.driver(req)
             nd = 0
@@ -115,6 +118,56 @@ def run(ctx):
                         ctx.broken.append(f"correspondence: `{line}` model={m} implementation={i}")
             ctx.extra["correspondence_lines"] = len(req)
             ctx.extra["correspondence_disagreements"] = nd
+
+
+def bulk_ingest(ctx, tmp):
+    """One file ingested for more than a thousand datasets (record lookups are cut into batches of 1000), the whole batch
+    offered again (refused, nothing changes), then everything is still known and readable — in particular the datasets whose
+    ids sit around the batch boundaries in sorted order."""
+    from lsst.daf.butler import Butler, DatasetRef, DatasetType, FileDataset
+
+    def viol(what, key, replay):
+        ctx.violations.append(core.Violation(what=what, key=key, replay=replay))
+
+    N = 1100 if ctx.quick() else 2300
+    root = os.path.join(tmp, "bulk")
+    Butler.makeRepo(root)
+    b = Butler.from_config(root, writeable=True, run="bulk")
+    b.registry.insertDimensionData("instrument", {"name": "K"})
+    b.registry.insertDimensionData("detector", *[{"instrument": "K", "id": i, "full_name": f"k{i}"} for i in range(N)])
+    dt = DatasetType("tbulk", {"instrument", "detector"}, "StructuredDataDict", universe=b.dimensions)
+    b.registry.registerDatasetType(dt)
+    p = os.path.join(tmp, "bulk.yaml")
+    with open(p, "w") as fh:
+        fh.write("bulk: 1\n")
+    refs = [DatasetRef(dt, {"instrument": "K", "detector": i}, run="bulk") for i in range(N)]
+    b.ingest(FileDataset(path=p, refs=refs), transfer="copy")
+    by_id = sorted(refs, key=lambda r_: r_.id)
+    edge = [by_id[i] for i in (0, 998, 999, 1000, 1001, N - 1) if i < N]
+    try:
+        b.ingest(FileDataset(path=p, refs=refs), transfer="copy")
+        again = "accepted"
+    except Exception as e:
+        again = type(e).__name__
+    ctx.evaluations += 1
+    ctx.count("bulk-ingest")
+    problems = []
+    if again == "accepted":
+        problems.append("the second ingest of the same datasets was accepted")
+    known = b.stored_many(refs)
+    n_unknown = sum(1 for r_ in refs if not known[r_])
+    if n_unknown:
+        problems.append(f"stored_many reports {n_unknown} of the {N} datasets as not stored")
+    for r_ in edge:
+        try:
+            if b.get(r_) != {"bulk": 1}:
+                problems.append(f"dataset at sorted position {by_id.index(r_)} reads back changed")
+        except Exception as e:
+            problems.append(f"dataset at sorted position {by_id.index(r_)} cannot be read ({type(e).__name__})")
+            break
+    if problems:
+        viol(f"one file ingested for {N} datasets, the batch offered again ({again}): " + "; ".join(problems[:3]), "bulk-ingest",
+             {"kind": "bulk-ingest", "n": N, "problems": problems})
 
 
 def make_config(cfgname):
@@ -157,7 +210,8 @@ def histories(ctx, tmp, cfgname, req, impl):
 
     def furnish(bb):
         bb.registry.insertDimensionData("instrument", {"name": "I"})
-        bb.registry.insertDimensionData("detector", *[{"instrument": "I", "id": i, "full_name": f"d{i}"} for i in range(1, NDET)])
+        # (detector names as cameras spell them: raft.sensor — the '.' must not make two detectors of one raft share a file)
+        bb.registry.insertDimensionData("detector", *[{"instrument": "I", "id": i, "full_name": f"R{i // 4}.S{i % 4}" if i % 3 else f"d{i}"} for i in range(1, NDET)])
         for f in FILTERS:
             bb.registry.insertDimensionData("physical_filter", {"instrument": "I", "name": f, "band": "r"})
         bb.registry.insertDimensionData("visit_system", *[{"instrument": "I", "id": i, "name": f"vs{i}"} for i in range(4)])
@@ -191,6 +245,7 @@ def histories(ctx, tmp, cfgname, req, impl):
             return rng.choice([Timespan(None, None), Timespan(t0, None), Timespan(None, t0), Timespan(t0, t0 + 1)])
         return np.array([rng.randint(-5, 5) for _ in range(rng.randint(0, 5))], dtype=rng.choice(["int64", "float32", "uint8"]).replace("uint8", "int16"))
 
+    src_used_filters = set()
     n_hist = (16 if cfgname == "file" else (8 if cfgname == "chained2" else 6)) if ctx.quick() else 200
     det = 0
     pathno, contentno = {}, {}
@@ -215,6 +270,9 @@ def histories(ctx, tmp, cfgname, req, impl):
         interesting = False
         # corpus: the recorded witness of C01-a runs first (three spellings of one physical_filter in one run)
         forced = ["a b", "a_b", "a/b"] if h == 0 else []
+        if h == 1:
+            # names that differ only after a '.', after an '&': distinct data IDs, distinct artifacts
+            forced = ["g.v1", "g.v2", "a&b", "a&c"]
         for step in range(rng.randint(10, 24)):
             if det + 6 >= NDET:
                 break
@@ -377,6 +435,16 @@ def histories(ctx, tmp, cfgname, req, impl):
                     det += 1
                     obj = gen_dict(rng, 2)
                     zr.append((src.put(obj, src_types["tdict"], instrument="I", detector=det, run="srcrun"), copy.deepcopy(obj)))
+                free_f = [f for f in FILTERS if f not in src_used_filters]
+                if free_f and rng.random() < 0.6:
+                    # ... and a dataset whose data ID (hence its member name inside the zip) has an awkward spelling
+                    f = rng.choice(free_f)
+                    src_used_filters.add(f)
+                    obj = gen_dict(rng, 2)
+                    zr.append((src.put(obj, src_types["tfilt"], instrument="I", physical_filter=f, run="srcrun"), copy.deepcopy(obj)))
+                    rng.shuffle(zr)
+                    k = len(zr)
+                    ctx.count(f"{cfgname}:zip-member-with-filter-name")
                 z = src.retrieve_artifacts_zip([x[0] for x in zr], ext)
                 b.ingest_zip(z, transfer="copy")
                 os.remove(z.ospath)
